@@ -97,37 +97,51 @@ def _is_none_test(e, want_none):
 
 
 def check_iterative_owner(ctx, an, f, g, reach, pname):
-    """The iterative spelling of the nearest-ancestor lookup:
+    """The iterative spelling of the nearest-ancestor lookup: a loop in which a walker that starts at this configuration is
+    moved on by `walker = walker._parent`,
 
-        owner = self
-        while <owner has no key file> and <owner has a parent>: owner = owner._parent
+        owner = self                                            node = self
+        while owner has no key file and owner has a parent:     while node:
+            owner = owner._parent                                   if node has a key file: return its key file
+                                                                    node = node._parent
+                                                                return the default
 
-    after which `owner` is the nearest configuration naming a key file, or the root.  Returns False when the accessor
-    is not written that way (the recursive spelling is checked by the caller)."""
+    What is asked of it, whatever the loop looks like, is read off the conditions known at the step and at the uses of the
+    default: the step runs only when the walker has no key file and (either there or as the loop condition) has a parent / is
+    not None; the default is used only when the walk ended without finding a key file.  Returns False when the accessor has
+    no such loop (the recursive spelling is checked by the caller)."""
+    from engine.flow import guard_atoms
     loops = []
     for w in ast.walk(f.node):
-        if not isinstance(w, ast.While) or len(w.body) != 1 or not isinstance(w.body[0], ast.Assign):
+        if not isinstance(w, ast.While):
             continue
-        st = w.body[0]
-        if not (len(st.targets) == 1 and isinstance(st.targets[0], ast.Name) and isinstance(st.value, ast.Attribute)
-                and st.value.attr == "_parent" and isinstance(st.value.value, ast.Name) and st.value.value.id == st.targets[0].id):
-            continue
-        loops.append((w, st.targets[0].id, st))
+        for st in ast.walk(w):
+            if isinstance(st, ast.Assign) and len(st.targets) == 1 and isinstance(st.targets[0], ast.Name) and isinstance(st.value, ast.Attribute) \
+                    and st.value.attr == "_parent" and isinstance(st.value.value, ast.Name) and st.value.value.id == st.targets[0].id:
+                loops.append((w, st.targets[0].id, st))
     if not loops:
         return False
+    loops.sort(key=lambda l: sum(1 for _ in ast.walk(l[0])))       # the innermost loop around the step
     w, var, step = loops[0]
-    conj = w.test.values if isinstance(w.test, ast.BoolOp) and isinstance(w.test.op, ast.And) else [w.test]
+    sn = [n for n in g.nodes if n.kind == "assign" and n.ast is step]
+    step_node = sn[0] if sn else None
+
+    def walker_attr(e, names):
+        return isinstance(e, ast.Attribute) and isinstance(e.value, ast.Name) and e.value.id == var and any(nm in e.attr for nm in names)
     own_none = has_parent = False
     extra = []
-    for c in conj:
-        a = _is_none_test(c, True)
-        b = _is_none_test(c, False)
-        if a is not None and isinstance(a, ast.Attribute) and "keyfile" in a.attr and isinstance(a.value, ast.Name) and a.value.id == var:
+    atoms = guard_atoms(an, f, step_node) if step_node is not None else []
+    loop_tests = {id(x) for x in ast.walk(w.test)}
+    for e, truth, t in atoms:
+        falsy = _is_none_test(e, True) if truth else (_is_none_test(e, False) if not truth else None)
+        truthy = _is_none_test(e, False) if truth else (_is_none_test(e, True) if not truth else None)
+        if falsy is not None and walker_attr(falsy, ("keyfile",)):
             own_none = True
-        elif b is not None and isinstance(b, ast.Attribute) and b.attr == "_parent" and isinstance(b.value, ast.Name) and b.value.id == var:
+        elif truthy is not None and (walker_attr(truthy, ("_parent",)) or (isinstance(truthy, ast.Name) and truthy.id == var)):
             has_parent = True
-        else:
-            extra.append(c)
+        elif id(e) in loop_tests or (t is not None and t.ast is not None and id(t.ast) in loop_tests):
+            extra.append(e)
+    # `while node:` form: the walker itself is tested by the loop, stepping onto None ends the walk
     # the climber starts at this configuration
     wn = [n for n in g.nodes if n.ast is w.test or (n.ast is not None and any(x is n.ast for x in ast.walk(w.test)))]
     starts_self = False
@@ -171,6 +185,8 @@ def check_iterative_owner(ctx, an, f, g, reach, pname):
             a = _is_none_test(t.ast, True) if tr else _is_none_test(t.ast, False)
             if a is not None and is_owner_keyfile(a, t):
                 ok = True
+            if a is not None and isinstance(a, ast.Name) and a.id == var and own_none:
+                ok = True       # the walker stepped off the root: every configuration on the way had no key file
         ctx.ob("keyfile.default-last", f, n.ast, ok and own_none and has_parent,
                "the default key file is used only when the walk ended at the root without finding a key file" if ok and own_none and has_parent else
                "the default key file can be chosen although this configuration or an ancestor names one", node=n)
@@ -240,6 +256,13 @@ def gp_scenarios(an, model, gp):
                         cv = model.const_eval(gp.module, r, gp.cls)
                     except (ValueError, KeyError):
                         cv = val(r, node, sp)
+                        if cv is None and isinstance(r, ast.Name) and sp.rd is not None:
+                            # a local table: providers = {"aes": AesProvider, "xor": XorProvider}
+                            ds = sp.sources(r, node)
+                            if len(ds) == 1 and ds[0][0] == "expr" and isinstance(ds[0][1], (ast.Dict, ast.Tuple, ast.List, ast.Set)):
+                                elts = ds[0][1].keys if isinstance(ds[0][1], ast.Dict) else ds[0][1].elts
+                                if elts and all(isinstance(x, ast.Constant) for x in elts):
+                                    cv = tuple(x.value for x in elts)
                     if isinstance(cv, str) and isinstance(op, (ast.Eq, ast.NotEq)):
                         return (lv == cv) == isinstance(op, ast.Eq)
                     if isinstance(cv, (tuple, list, set, frozenset, dict)) and isinstance(op, (ast.In, ast.NotIn)):
